@@ -472,6 +472,7 @@ handlebars_helper!(mall: |a: i64, {k: i64 = 1}, *args, **kwargs| format!(
 ));
 handlebars_helper!(m_ret_i: |x: i64| x);
 handlebars_helper!(m_ret_b: |x: Json| x.is_string());
+handlebars_helper!(m_ret_j: |x: Json| x.clone());
 
 pub fn register_macros(reg: &mut Handlebars<'static>) {
     reg.register_helper("m_str", Box::new(m_str));
@@ -495,4 +496,5 @@ pub fn register_macros(reg: &mut Handlebars<'static>) {
     reg.register_helper("mall", Box::new(mall));
     reg.register_helper("m_ret_i", Box::new(m_ret_i));
     reg.register_helper("m_ret_b", Box::new(m_ret_b));
+    reg.register_helper("m_ret_j", Box::new(m_ret_j));
 }
